@@ -9,8 +9,12 @@ UNDECIDED = ['SET_VALUE_PROPS / GET_VALUE_PROPS column mapping and UTF-16/UTF-8 
              'serialise/deserialise round trip of lists and tables (recursion + uthash)', 'texts longer than the bound of the round-trip jobs']
 
 
+COMPOSITE = ['cif_list_serialize', 'cif_table_serialize', 'cif_list_deserialize', 'cif_table_deserialize']
+
+
 def jobs():
     T = ['value.c']
+    RT = {'VERIF_SCALAR_ONLY': 1, 'MAXL': 6, 'MAXT': 12, 'MAXW': 6}
     return [
         Job('buf_write', 'value_h.c', entry='harness_buf_write', enforce='cif_buf_write', tus=T, defines={'MAXB': 24, 'MAXL': 6}, thorough_defines={'MAXB': 48},
             loops=1, reach=['written', 'grown', 'failed'], min_obligations=20, timeout=1200, mem_gb=16, flags=['--malloc-may-fail', '--malloc-fail-null'],
@@ -19,16 +23,24 @@ def jobs():
         Job('buf_read', 'value_h.c', entry='harness_buf_read', enforce='cif_buf_read', tus=T, defines={'MAXB': 24, 'MAXL': 6}, thorough_defines={'MAXB': 64},
             reach=['read', 'nothing'], min_obligations=20, timeout=600,
             clauses=['returns min(available, max)', 'delivered bytes == stored bytes', 'position advanced by the count']),
-        Job('roundtrip_char', 'value_h.c', entry='harness_roundtrip_char', tus=T, functions=['cif_value_serialize', 'cif_value_deserialize', 'cif_buf_create'], plain=True, no_loop_contracts=True,
-            defines={'RTN': 3, 'MAXL': 6, 'MAXT': 8, 'MAXW': 6}, thorough_defines={'RTN': 6}, unwind=16, text_ui=True,
-            bounded='CHAR values with a text of exactly RTN (3 quick / 6 thorough) arbitrary code units, both quoted states, plus the unknown and not-applicable values; loops unwound completely',
-            reach=['char-roundtrip', 'unk-na-roundtrip'], min_obligations=30, timeout=1200, mem_gb=16,
-            clauses=['deserialise(serialise(v)) has the kind, text and quoted status of v', 'the read-back text lives in storage of its own']),
-        Job('roundtrip_numb', 'value_h.c', entry='harness_roundtrip_numb', tus=T, functions=['cif_value_serialize', 'cif_value_deserialize', 'cif_value_parse_numb'], plain=True, no_loop_contracts=True,
-            defines={'RTN': 3, 'MAXL': 6, 'MAXT': 8, 'MAXW': 6}, unwind=16, text_ui=True,
-            bounded='one concrete number text (-1.50e2(3)) with either quoted state: the lemma is about the wire format and the order of the deserialisation steps',
-            reach=['numb-roundtrip'], min_obligations=30, timeout=1200, mem_gb=16,
-            clauses=['a number is read back with its quoted status (the flag is read after the number text is parsed)', 'text, sign, digits, su digits and scale identical']),
+        Job('serialize_layout', 'value_h.c', entry='harness_serialize_layout', tus=T, functions=['cif_value_serialize', 'cif_buf_create', 'cif_buf_write'],
+            replace=COMPOSITE, no_loop_contracts=True, flags=['--no-malloc-may-fail'], defines=dict(RT, RTN=3), thorough_defines={'RTN': 10}, unwind=14, text_ui=True,
+            bounded='CHAR and NUMB values whose text has exactly RTN (3 quick / 10 thorough) arbitrary non-NUL code units, any quoted field; UNK and NA values; loops unwound completely',
+            trusted=['u_strlen modelled (answers RTN, asserts that RTN is right)', 'the composite branches are proved unreachable (contracts with precondition false)'],
+            reach=['text-layout', 'kind-only-layout'], min_obligations=30, timeout=1200, mem_gb=16,
+            clauses=['cif_value_serialize(v) == LAYOUT(v): kind, length, code units in order, quoted flag last']),
+        Job('deserialize_layout_char', 'value_h.c', entry='harness_deserialize_layout', tus=T, functions=['cif_value_deserialize', 'cif_buf_read'],
+            replace=['cif_value_clean'] + COMPOSITE, no_loop_contracts=True, flags=['--no-malloc-may-fail'], defines=dict(RT, RTN=6), thorough_defines={'RTN': 12}, unwind=16, text_ui=True,
+            bounded='texts of exactly RTN (6 quick / 12 thorough) arbitrary non-NUL code units, every value of the quoted field; loops unwound completely',
+            trusted=['cif_value_clean replaced by its contract (value.h)', 'the composite branches are proved unreachable'],
+            reach=['read-back', 'bad-flag'], min_obligations=30, timeout=1200, mem_gb=16,
+            clauses=['cif_value_deserialize(LAYOUT(v)) has the kind, text and quoted status of v', 'the read-back text lives in storage of its own', 'an invalid quoted flag is refused']),
+        Job('deserialize_layout_numb', 'value_h.c', entry='harness_deserialize_layout', tus=T, functions=['cif_value_deserialize', 'cif_buf_read', 'cif_value_parse_numb'],
+            replace=['cif_value_clean'] + COMPOSITE, no_loop_contracts=True, flags=['--no-malloc-may-fail'], defines=dict(RT, RTN=10, RT_NUMB=1), unwind=14, text_ui=True,
+            bounded='one concrete number text (-1.50e2(3)), every value of the quoted field: the lemma is about the wire format and the order of the deserialisation steps (number syntax: C10)',
+            trusted=['cif_value_clean replaced by its contract (value.h)', 'the composite branches are proved unreachable'],
+            reach=['read-back', 'bad-flag'], min_obligations=30, timeout=1200, mem_gb=16,
+            clauses=['a number is read back with its quoted status (the flag is read after the number text is parsed)', 'text, sign, digits, su digits and scale as parsed']),
     ]
 
 
